@@ -9,6 +9,15 @@
       impl: the code-shaped model.  spec: RFC 9106 on its input domain (`Spec.Argon2.valid`); the refusals of
       p = 0, p ≥ 2^24, t = 0 and of a version other than 0x10/0x13 are the documented `InvalidParam` errors;
       outside the RFC's domain in any other way (m < 8p, taglen < 4) the Spec has no answer (`?`).
+
+  argon2.build <type> <prog> <taglen> <pwd> <salt> <key> <aad>
+      `prog` is `-` or a comma-separated list of builder calls applied in order to `Params::argon2<type>()`:
+      `m<n>` memory_kb(n), `p<n>` parallelism(n), `t<n>` iterations(n), `v<n>` version(n) (n a u32); the first `Err`
+      ends the chain (`ERR:<e>`); then as `argon2.hash`.
+      impl: the setters of the code-shaped model applied in the same order.  spec: RFC 9106 for the LAST value given
+      to each setter (the crate's defaults t=1, m=32, p=1, v=0x13 where a setter was not called) — the derived
+      parameters must not depend on the order or repetition of the calls; when some call left m < 8p (the crate then
+      raises m silently, outside the RFC's domain) the Spec has no answer (`?`).
 -/
 import CxVerif.Util.Proto
 import CxVerif.Impl.Argon2
@@ -71,12 +80,89 @@ def hashSpec (ty v t m p tl pwd salt key aad : String) : Option String := do
       pure (if constSizes.contains tl then s!"{tag},{tag}" else tag)
     else pure "?"
 
+/-- one builder call `m47` / `p3` / `t2` / `v19` -/
+def parseCall (s : String) : Option (Char × Nat) :=
+  match s.toList with
+  | c :: rest => (u32Arg (String.ofList rest)).map fun n => (c, n)
+  | [] => none
+
+def parseProg (s : String) : Option (List (Char × Nat)) :=
+  if s == "-" then some [] else (s.splitOn ",").mapM parseCall
+
+/-- outer `none` = malformed program; inner `none` = panic -/
+def runProgImpl : Impl.Argon2.Params → List (Char × Nat) → Option (Option (Except Impl.Argon2.InvalidParam Impl.Argon2.Params))
+  | s, [] => some (some (.ok s))
+  | s, (c, n) :: rest =>
+    let r : Option (Option (Except Impl.Argon2.InvalidParam Impl.Argon2.Params)) :=
+      if c == 'm' then some (s.memory_kb' n) else if c == 'p' then some (s.parallelism' n)
+      else if c == 't' then some (s.iterations' n) else if c == 'v' then some (s.version' n) else none
+    match r with
+    | none => none
+    | some none => some none
+    | some (some (.error e)) => some (some (.error e))
+    | some (some (.ok s')) => runProgImpl s' rest
+
+def buildImpl (ty prog tl pwd salt key aad : String) : Option String := do
+  let base ← implType ty
+  let prog ← parseProg prog
+  let tl ← natArg tl
+  let pwd ← hexArg pwd; let salt ← hexArg salt; let key ← hexArg key; let aad ← hexArg aad
+  match ← runProgImpl base prog with
+  | none => pure "PANIC"
+  | some (.error e) => pure s!"ERR:{errName e}"
+  | some (.ok params) =>
+    match Impl.Argon2.argon2_at params pwd salt key aad tl with
+    | none => pure "PANIC"
+    | some tag =>
+      if constSizes.contains tl then
+        match Impl.Argon2.argon2 tl params pwd salt key aad with
+        | none => pure "PANIC"
+        | some tag2 => pure s!"{Hex.encode tag},{Hex.encode tag2}"
+      else pure (Hex.encode tag)
+
+/-- (m, p, t, v, some call left m < 8p) after the calls; `.error` = the first documented refusal; `none` = malformed -/
+def runProgSpec : (Nat × Nat × Nat × Nat × Bool) → List (Char × Nat) → Option (Except String (Nat × Nat × Nat × Nat × Bool))
+  | st, [] => some (.ok st)
+  | (m, p, t, v, cl), (c, n) :: rest =>
+    if c == 'm' then runProgSpec (n, p, t, v, cl || decide (n < 8 * p)) rest
+    else if c == 'p' then
+      if n ≥ 2 ^ 24 then some (.error "ParallelismTooHigh")
+      else if n = 0 then some (.error "ParallelismZero")
+      else runProgSpec (m, n, t, v, cl || decide (m < 8 * n)) rest
+    else if c == 't' then
+      if n = 0 then some (.error "IterationsZero") else runProgSpec (m, p, n, v, cl) rest
+    else if c == 'v' then
+      if ¬ (n = 0x13 ∨ n = 0x10) then some (.error "UnknownVersion") else runProgSpec (m, p, t, n, cl) rest
+    else none
+
+def buildSpec (ty prog tl pwd salt key aad : String) : Option String := do
+  let y ← specType ty
+  let prog ← parseProg prog
+  let tl ← natArg tl
+  let pwd ← hexArg pwd; let salt ← hexArg salt; let key ← hexArg key; let aad ← hexArg aad
+  -- the crate's documented defaults: 32 KiB, 1 lane, 1 pass, version 0x13
+  match ← runProgSpec (32, 1, 1, 0x13, false) prog with
+  | .error e => pure s!"ERR:{e}"
+  | .ok (m, p, t, v, clamped) =>
+    if clamped then pure "?"
+    else
+      let c : Spec.Argon2.Params := { y := y, v := v, t := t, m := m, p := p, T := tl }
+      if Spec.Argon2.valid c pwd salt key aad then
+        let tag := Hex.encode (Spec.Argon2.argon2 c pwd salt key aad)
+        pure (if constSizes.contains tl then s!"{tag},{tag}" else tag)
+      else pure "?"
+
+def h7 (f : String → String → String → String → String → String → String → Option String) : Handler
+  | [a, b, c, d, e, g, h] => f a b c d e g h
+  | _ => none
+
 def h10 (f : String → String → String → String → String → String → String → String → String → String → Option String) : Handler
   | [a, b, c, d, e, g, h, i, j, k] => f a b c d e g h i j k
   | _ => none
 
 def ops : List OpEntry := [
-  ⟨"argon2.hash", h10 hashImpl, h10 hashSpec⟩
+  ⟨"argon2.hash", h10 hashImpl, h10 hashSpec⟩,
+  ⟨"argon2.build", h7 buildImpl, h7 buildSpec⟩
 ]
 
 end Cx.Driver.Argon2
